@@ -865,6 +865,51 @@ func sessPhaseL(t *testing.T, r *vrng, rep *vreport, npairs, total int) {
 
 // ---------------------------------------------------------------- the test
 
+// sessPhaseClose: C04 at the very end of a session's life.  Close flushes once more; that flush is
+// bound by the same admission rule as every other: with congestion control on, after a timeout loss
+// (cwnd collapsed, the oldest segment still unacknowledged) it numbers and transmits nothing new,
+// and in general no more than min(snd_wnd, rmt_wnd, cwnd) segments are outstanding after it.
+func sessPhaseClose(t *testing.T, r *vrng, rep *vreport, ncases int) {
+	unfreeze := sessFreeze()
+	defer unfreeze()
+	for i := 0; i < ncases; i++ {
+		cfg := sessCfg{conv: uint32(4000 + i), stream: i % 2, sndwnd: r.pick(8, 32, 128), rcvwnd: 32, mtu: 1400, nodelay: r.intn(2), interval: 10, resend: r.pick(0, 2), nc: 0}
+		conn := sessNewConn(fmt.Sprintf("close%d", i))
+		s := sessNewSession(cfg, conn, "nobody")
+		s.SetWriteDelay(false)
+		nmsg := 4 + r.intn(12)
+		for k := 0; k < nmsg; k++ {
+			s.SetWriteDeadline(time.Now().Add(-time.Second)) // never block: a refused write returns at once
+			s.Write(make([]byte, 900+r.intn(400)))
+		}
+		// the peer is silent: let the retransmission timer of the oldest segment expire and flush once
+		saved := refTime
+		s.mu.Lock()
+		refTime = refTime.Add(-time.Duration(int(s.kcp.rx_rto)+50) * time.Millisecond)
+		s.kcp.flush(IKCP_FLUSH_FULL)
+		cwnd, nxt0, una0, queued := s.kcp.cwnd, s.kcp.snd_nxt, s.kcp.snd_una, s.kcp.snd_queue.Len()
+		lim := min(s.kcp.snd_wnd, s.kcp.rmt_wnd, s.kcp.cwnd)
+		s.mu.Unlock()
+		s.Close()
+		s.mu.Lock()
+		nxt1 := s.kcp.snd_nxt
+		s.mu.Unlock()
+		refTime = saved
+		conn.Close()
+		rep.Cases++
+		rep.Monitors["session-close-admission"]++
+		if queued > 0 && cwnd == 1 {
+			rep.Nontrivial++
+			rep.Distribution["close-after-timeout-loss-with-queue"]++
+		}
+		outstanding := nxt1 - una0
+		if nxt1 != nxt0 && outstanding > lim {
+			rep.violate("session-close-admits-beyond-window", fmt.Sprintf("case %d (%s): after a timeout loss cwnd=%d with %d segment(s) outstanding and %d queued; Close's final flush numbered %d new segment(s): %d outstanding > min(snd_wnd, rmt_wnd, cwnd) = %d",
+				i, cfg.String(), cwnd, nxt0-una0, queued, nxt1-nxt0, outstanding, lim), map[string]any{"cfg": cfg.String(), "messages": nmsg, "seed": vSeed(), "case": i})
+		}
+	}
+}
+
 func TestVerifSess(t *testing.T) {
 	r := newRng(vSeed())
 	lg := newVlog(t, "C01sess.log")
@@ -883,6 +928,11 @@ func TestVerifSess(t *testing.T) {
 	tr := time.Since(t0) - tw
 	lg.close()
 	sessPhaseL(t, r, rep, nl, total)
+	nc := 24
+	if vThorough() {
+		nc = 200
+	}
+	sessPhaseClose(t, r, rep, nc)
 	rep.Extra["phase_seconds"] = map[string]float64{"W": tw.Seconds(), "R": tr.Seconds(), "L": (time.Since(t0) - tw - tr).Seconds()}
 	rep.Extra["cases_W"], rep.Extra["cases_R"], rep.Extra["pairs_L"] = nw, nr, nl
 	rep.write(t, "C01sess.report.json")
